@@ -53,6 +53,8 @@ def build_argv(cmd, shuffle_seed=None):
     groups = []
     for f in cmd.get('flags', []):
         groups.append([f])
+    for f in cmd.get('repeat_flags', []):
+        groups.append([f])            # a boolean flag given twice means the same as once
     for o, v in cmd.get('preserve', []):
         groups.append([o, v] if not cmd.get('preserve_eq') else [o + '=' + v])
     if cmd.get('in_place'):
@@ -505,6 +507,14 @@ def gen_c13_batch(seed, index, tier):
                     val = 'value'
                 extra['preserve'].append([r.choice(['--preserve-locals', '--preserve-globals']), val])
         tree, cmd = single_input_world(content, io, extra, name=r.choice(['m.py', 'm.pyw', 'module.txt', 'm']))
+        if fl and r.random() < 0.1:
+            cmd['repeat_flags'] = [r.choice(fl)]
+        if cmd.get('in_place') and r.random() < 0.3:
+            cmd['in_place_spelling'] = '-i'
+        if cmd.get('output') is not None and r.random() < 0.3:
+            cmd['output_spelling'] = '-o'
+        if cmd['preserve'] and r.random() < 0.15 and not any(v.startswith(' ') for o, v in cmd['preserve']):
+            cmd['preserve_eq'] = True
         if r.random() < 0.08:
             inv, c = r.choice(INVALID_CASES)
             cmd.update(c)
